@@ -24,8 +24,8 @@ core.setup_repo_path()
 ID = 'C17'
 LEVEL = 'model_checking'
 RULE = ('states = multiset of (job, diagnostics) already executed in the interpreter + class-level state (EconomicObject.ID, Logger handles); '
-        'transitions = one job; all sequences of length <= 2 over 18 jobs x 3 diagnostics settings (none, logging, logging+tracing+registered functions), and of length 3 (quick) / 4 (thorough) over a '
-        'reduced alphabet; oracle: series (keys and values, ==) equal to the fresh-process baseline of that job; a re-parsed solver reports '
+        'transitions = one job; all sequences of length <= 2 over 20 jobs x 3 diagnostics settings (none, logging, logging+tracing+registered functions), and of length 3 (quick) / 4 (thorough) over a '
+        'reduced alphabet (8 jobs, the whole sequence either undiagnosed or fully diagnosed); oracle: series (keys and values, ==) equal to the fresh-process baseline of that job; a re-parsed solver reports '
         'exactly the new block; non-trivial = sequences in which a job runs after another job or under a diagnostics setting')
 ASSUMPTIONS = [
     'baselines come from two separate fresh interpreters and must be identical to each other (self-determinism check)',
@@ -39,10 +39,11 @@ B3 = 'z = .5*LAG_z + 5.5\nLAG_z = z(k-1)\nz(0) = 2.\nMaxTime = 4'
 B4 = 'x = f(y) + 1\ny = .25*x\nMaxTime = 2'
 B5 = 'x = .5*x + 3\nw = x + 1\nMaxTime = 2'     # only names that B1 also uses
 B6 = 'p = f(q)\nq = .25*p + 2\nMaxTime = 2'      # registers ANOTHER function under the name f
+B7 = 'w = .5*LAG_w + 1\nLAG_w = w(k-1)\nz = z + 0.01\nMaxTime = 2'   # steady-state search with z put on the exclusion list in place
 
-JOBS = ['M1', 'M2', 'M3', 'B1', 'B1nr', 'B2', 'B2nr', 'B3ss', 'B4f', 'B5', 'B5nr', 'B6g', 'RESOLVE', 'RESOLVE-B4f', 'REPARSE-B2', 'REPARSE-B1', 'REPARSE-B5', 'IDLE50']
+JOBS = ['M1', 'M2', 'M3', 'B1', 'B1nr', 'B2', 'B2nr', 'B3ss', 'B4f', 'B5', 'B5nr', 'B6g', 'B7excl', 'M2i', 'RESOLVE', 'RESOLVE-B4f', 'REPARSE-B2', 'REPARSE-B1', 'REPARSE-B5', 'IDLE50']
 DIAGS = ['none', 'log', 'all']
-REDUCED_JOBS = ['M2', 'B3ss', 'B4f', 'B6g', 'RESOLVE-B4f', 'REPARSE-B5', 'IDLE50']
+REDUCED_JOBS = ['M2i', 'B3ss', 'B7excl', 'B4f', 'B6g', 'RESOLVE-B4f', 'REPARSE-B5', 'IDLE50']
 REDUCED_DIAGS = ['none', 'all']
 
 
@@ -98,17 +99,34 @@ def run_job(job, diag, ctx):
         for i in range(50):
             EconomicObject()
         return None
-    if job in ('M1', 'M2', 'M3'):
+    if job in ('M1', 'M2', 'M2i', 'M3'):
         try:
             if job == 'M1':
                 from sfc_models.gl_book.chapter3 import SIM
                 m = SIM('C1').build_model()
                 m.MaxTime = 3
-            elif job == 'M2':
+            elif job in ('M2', 'M2i'):
                 from mc import topo
                 spec = {'countries': [topo.base_country('AA'), topo.base_country('BB')], 'ext': 'last',
                         'links': [['gift', 'AA', 'BB', True, True], ['import', 'BB', 'AA']], 'xr': {'AA': 'x2', 'BB': 'xvar'}, 'horizon': 3}
-                m = topo.build(spec).model
+                if job == 'M2i':
+                    # two coexisting models built interleaved: a second Model() appears after the first country of this one
+                    orig_country = topo.Country
+                    state = {'n': 0}
+
+                    def country_hook(*a, **kw):
+                        c = orig_country(*a, **kw)
+                        state['n'] += 1
+                        if state['n'] == 1:
+                            state['other'] = Model()      # (the other model stays empty for now)
+                        return c
+                    topo.Country = country_hook
+                    try:
+                        m = topo.build(spec).model
+                    finally:
+                        topo.Country = orig_country
+                else:
+                    m = topo.build(spec).model
                 m.EquationSolver.MaxIterations = 400
             else:
                 from sfc_models.sector import Market
@@ -123,12 +141,13 @@ def run_job(job, diag, ctx):
             m.main()
         except Exception as e:
             ctx.prev = None
-            return 'raised:' + type(e).__name__
+            return ('as', 'M2', 'raised:' + type(e).__name__) if job == 'M2i' else 'raised:' + type(e).__name__
         ctx.prev = m.EquationSolver
-        ctx.prev_job = job
-        return series_of(m.EquationSolver)
-    if job in ('B1', 'B1nr', 'B2', 'B2nr', 'B3ss', 'B4f', 'B5', 'B5nr', 'B6g'):
-        text = {'B1': B1, 'B1nr': B1, 'B2': B2, 'B2nr': B2, 'B3ss': B3, 'B4f': B4, 'B5': B5, 'B5nr': B5, 'B6g': B6}[job]
+        ctx.prev_job = 'M2' if job == 'M2i' else job
+        res_ = series_of(m.EquationSolver)
+        return ('as', 'M2', res_) if job == 'M2i' else res_
+    if job in ('B1', 'B1nr', 'B2', 'B2nr', 'B3ss', 'B4f', 'B5', 'B5nr', 'B6g', 'B7excl'):
+        text = {'B1': B1, 'B1nr': B1, 'B2': B2, 'B2nr': B2, 'B3ss': B3, 'B4f': B4, 'B5': B5, 'B5nr': B5, 'B6g': B6, 'B7excl': B7}[job]
         try:
             s = EquationSolver(text, run_equation_reduction=not job.endswith('nr'))
             if job == 'B3ss':
@@ -141,6 +160,11 @@ def run_job(job, diag, ctx):
                     ctx.b4f = s
             if job == 'B6g':
                 s.AddFunction('f', fun2)
+            if job == 'B7excl':
+                # the user extends the solver's own exclusion list in place (z never settles in this block)
+                s.ParameterSolveInitialSteadyState = True
+                s.ParameterInitialSteadyStateMaxTime = 60
+                s.ParameterInitialSteadyStateExcludedVariables.append('z')
             s.SolveEquation()
         except Exception as e:
             ctx.prev = None
@@ -191,7 +215,7 @@ def run_job(job, diag, ctx):
 def compute_baselines():
     out = {}
     for job in JOBS:
-        if job.startswith('RESOLVE') or job == 'IDLE50' or job.startswith('REPARSE'):
+        if job.startswith('RESOLVE') or job in ('IDLE50', 'M2i') or job.startswith('REPARSE'):
             continue
         ctx = Ctx()
         # each baseline in its own interpreter would be ideal; a fresh Ctx in a fresh process per call of this function
@@ -212,7 +236,7 @@ def baseline_from_fresh_process(job):
 
 def all_baselines():
     """Two fresh interpreters per job (all started at once), results must be identical."""
-    jobs = [j for j in JOBS if not (j.startswith('RESOLVE') or j == 'IDLE50' or j.startswith('REPARSE'))]
+    jobs = [j for j in JOBS if not (j.startswith('RESOLVE') or j in ('IDLE50', 'M2i') or j.startswith('REPARSE'))]
     procs = []
     for job in jobs:
         for rep in (0, 1):
@@ -287,12 +311,13 @@ def units(tier):
     base = all_baselines()
     b = BOUNDS[tier]
     full = [(j, d) for j in JOBS for d in DIAGS]
-    red = [(j, d) for j in REDUCED_JOBS for d in REDUCED_DIAGS]
     out = []
-    # (heavier units first: better load balance)
-    for first in red:
-        for second in red:
-            out.append({'alphabet': 'reduced', 'first': list(first), 'second': list(second), 'len': b['reduced_len'], 'base': base})
+    # (heavier units first: better load balance); reduced alphabet: one diagnostics setting per sequence
+    for dg in REDUCED_DIAGS:
+        red = [(j, dg) for j in REDUCED_JOBS]
+        for first in red:
+            for second in red:
+                out.append({'alphabet': 'reduced', 'diag': dg, 'first': list(first), 'second': list(second), 'len': b['reduced_len'], 'base': base})
     for first in full:
         out.append({'alphabet': 'full', 'first': list(first), 'len': b['full_len'], 'base': base})
     return out
@@ -306,7 +331,7 @@ def run_unit(unit, tier):
         alpha = [(j, d) for j in JOBS for d in DIAGS]
         lens = range(1, unit['len'] + 1)
     else:
-        alpha = [(j, d) for j in REDUCED_JOBS for d in REDUCED_DIAGS]
+        alpha = [(j, unit['diag']) for j in REDUCED_JOBS]
         lens = range(unit['len'], unit['len'] + 1)
     from sfc_models.models import EconomicObject
     for n in lens:
